@@ -712,6 +712,55 @@ func checkAttributePhase(c *Ctx, p *packages.Package) {
 			}
 		}
 	}
+	// helpers: a function of the package all of whose callers are attribute implementations, or run after the numbering step,
+	// is part of them (compute() split into firstPosOfSeq / lastPosOfSeq / allNullable)
+	{
+		callers := map[*types.Func]map[*types.Func]bool{}
+		AllFuncDecls(p, func(fd *ast.FuncDecl) {
+			if fd.Body == nil {
+				return
+			}
+			from, _ := info.Defs[fd.Name].(*types.Func)
+			if from == nil {
+				return
+			}
+			ast.Inspect(fd.Body, func(n ast.Node) bool {
+				if id, ok := n.(*ast.Ident); ok {
+					if to, ok := info.Uses[id].(*types.Func); ok && to.Pkg() == p.Types && to != from {
+						if callers[to] == nil {
+							callers[to] = map[*types.Func]bool{}
+						}
+						callers[to][from] = true
+					}
+				}
+				return true
+			})
+		})
+		for changed := true; changed; {
+			changed = false
+			for to, froms := range callers {
+				if isImpl[to] || post[to] || to == parseFn {
+					continue
+				}
+				allImpl, allPost := true, true
+				for from := range froms {
+					if !isImpl[from] {
+						allImpl = false
+					}
+					if !post[from] {
+						allPost = false
+					}
+				}
+				if allImpl {
+					isImpl[to] = true
+					changed = true
+				} else if allPost {
+					post[to] = true
+					changed = true
+				}
+			}
+		}
+	}
 	// 3. every call site of a memoising attribute
 	nSites := 0
 	perFn := map[string]int{}
